@@ -52,4 +52,136 @@ theorem serializeTlvExt_sameOut (e : TlvExt) (b1 b2 : SBuf) (fix : Bool) (h : Bu
   · rfl
   · exact ⟨bufEq_prepend _ _ _ (bufEq_prepend _ _ _ h), rfl⟩
 
+/-! ## the jumbo option keeps the hop-by-hop header consistent -/
+
+theorem setJumboLength_spec (o o' : Tlv) (n : Nat) (h : setJumboLength o n = .ok o') :
+    o'.typ = hopByHopOptionJumbogram ∧ o'.len = 4 ∧ o'.bytes.length = 4 ∧ o'.ax = 4 ∧ o'.ay = 2 := by
+  unfold setJumboLength at h
+  dsimp only at h
+  by_cases h4 : o.bytes.length ≠ 4
+  · rw [if_pos h4] at h
+    simp only [List.length_cons, List.length_nil, Nat.lt_irrefl, if_false, Res.ok.injEq, Nat.reduceAdd] at h
+    rw [← h]
+    exact ⟨rfl, rfl, by simp [Tlv.bytes, putBe32], rfl, rfl⟩
+  · have h4' : o.bytes.length = 4 := by omega
+    rw [if_neg h4] at h
+    have : ¬ o.bytes.length < 4 := by omega
+    rw [if_neg this] at h
+    simp only [Res.ok.injEq] at h
+    rw [← h]
+    exact ⟨rfl, rfl, by simp [Tlv.bytes, putBe32, h4']; simp [Tlv.bytes] at h4'; omega, rfl, rfl⟩
+
+theorem jumboOpt_ok (fix : Bool) (o' : Tlv)
+    (h : o'.len = 4 ∧ o'.bytes.length = 4 ∧ o'.ax = 4 ∧ o'.ay = 2) :
+    (o'.typ ≠ 0 → (fixOpt fix o').len ≤ o'.bytes.length) ∧ (o'.ax < 256 ∧ o'.ay < 256) := by
+  obtain ⟨h1, h2, h3, h4⟩ := h
+  refine ⟨fun ht => ?_, by omega⟩
+  unfold fixOpt
+  rw [if_neg ht]
+  split
+  · show o'.bytes.length % 256 ≤ o'.bytes.length
+    exact Nat.mod_le _ _
+  · omega
+
+theorem setFirstJumbo_consistent (fix : Bool) : ∀ (os os' : List Tlv) (f : Bool),
+    setFirstJumbo os = .ok (os', f) → GapFree fix os → AlignInRange os →
+    GapFree fix os' ∧ AlignInRange os' := by
+  intro os
+  induction os with
+  | nil =>
+    intro os' f h hg hr
+    simp only [setFirstJumbo, Res.ok.injEq, Prod.mk.injEq] at h
+    rw [← h.1]; exact ⟨hg, hr⟩
+  | cons o os ih =>
+    intro os' f h hg hr
+    unfold setFirstJumbo at h
+    split at h
+    · match hs : setJumboLength o 0 with
+      | .ok o' =>
+        rw [hs] at h
+        simp only [Res.bind_ok, Res.pure_eq_ok, Res.ok.injEq, Prod.mk.injEq] at h
+        obtain ⟨-, s2, s3, s4, s5⟩ := setJumboLength_spec o o' 0 hs
+        obtain ⟨g1, g2⟩ := jumboOpt_ok fix o' ⟨s2, s3, s4, s5⟩
+        rw [← h.1]
+        refine ⟨fun x hx => ?_, fun x hx => ?_⟩
+        · rcases List.mem_cons.1 hx with rfl | hx
+          · exact g1
+          · exact hg x (List.mem_cons_of_mem _ hx)
+        · rcases List.mem_cons.1 hx with rfl | hx
+          · exact g2
+          · exact hr x (List.mem_cons_of_mem _ hx)
+      | .err e => rw [hs] at h; simp at h
+      | .panic k => rw [hs] at h; simp at h
+    · match hs : setFirstJumbo os with
+      | .ok (os2, f2) =>
+        rw [hs] at h
+        simp only [Res.bind_ok, Res.pure_eq_ok, Res.ok.injEq, Prod.mk.injEq] at h
+        obtain ⟨g1, g2⟩ := ih os2 f2 hs (fun x hx => hg x (List.mem_cons_of_mem _ hx))
+          (fun x hx => hr x (List.mem_cons_of_mem _ hx))
+        rw [← h.1]
+        refine ⟨fun x hx => ?_, fun x hx => ?_⟩
+        · rcases List.mem_cons.1 hx with rfl | hx
+          · exact hg _ List.mem_cons_self
+          · exact g1 x hx
+        · rcases List.mem_cons.1 hx with rfl | hx
+          · exact hr _ List.mem_cons_self
+          · exact g2 x hx
+      | .err e => rw [hs] at h; simp at h
+      | .panic k => rw [hs] at h; simp at h
+
+theorem addJumboOption_consistent (fix : Bool) (l l' : IPv6) (h : addJumboOption l = .ok l')
+    (hc : l.Consistent fix) : l'.Consistent fix := by
+  unfold addJumboOption at h
+  obtain ⟨t, ht⟩ := setJumboLength_ok Tlv.zero 0
+  obtain ⟨-, s2, s3, s4, s5⟩ := setJumboLength_spec _ t 0 ht
+  obtain ⟨g1, g2⟩ := jumboOpt_ok fix t ⟨s2, s3, s4, s5⟩
+  unfold IPv6.Consistent at hc ⊢
+  match hh : l.hopByHop with
+  | none =>
+    rw [hh] at h
+    simp only [setFirstJumbo, Res.bind_ok, ht, Res.pure_eq_ok, Bool.false_eq_true, if_false,
+      Res.ok.injEq] at h
+    rw [← h]
+    simp only [List.nil_append]
+    exact ⟨fun x hx => by rw [List.mem_singleton.1 hx]; exact g1,
+           fun x hx => by rw [List.mem_singleton.1 hx]; exact g2⟩
+  | some hb =>
+    rw [hh] at h hc
+    obtain ⟨hg, hr⟩ := hc
+    obtain ⟨⟨os, f⟩, hr'⟩ := setFirstJumbo_ok hb.options
+    obtain ⟨c1, c2⟩ := setFirstJumbo_consistent fix _ _ _ hr' hg hr
+    simp only [hr', Res.bind_ok, ht, Res.pure_eq_ok] at h
+    split at h
+    · simp only [Res.ok.injEq] at h
+      rw [← h]; exact ⟨c1, c2⟩
+    · simp only [Res.ok.injEq] at h
+      rw [← h]
+      refine ⟨fun x hx => ?_, fun x hx => ?_⟩
+      · rcases List.mem_append.1 hx with hx | hx
+        · exact hg x hx
+        · rw [List.mem_singleton.1 hx]; exact g1
+      · rcases List.mem_append.1 hx with hx | hx
+        · exact hr x hx
+        · rw [List.mem_singleton.1 hx]; exact g2
+
+theorem ip6JumboPrep_consistent (fix jumbo : Bool) (l l' : IPv6) (h : ip6JumboPrep l fix jumbo = .ok l')
+    (hc : l.Consistent fix) : l'.Consistent fix := by
+  unfold ip6JumboPrep at h
+  split at h
+  · split at h
+    · exact addJumboOption_consistent fix l l' h hc
+    · split at h
+      · cases h
+      · rename_i hb hhb
+        match hj : getJumboLength hb with
+        | .ok (n, ok) =>
+          rw [hj] at h
+          simp only [Res.bind_ok] at h
+          split at h
+          · simp only [Res.pure_eq_ok, Res.ok.injEq] at h; rw [← h]; exact hc
+          · cases h
+        | .err e => rw [hj] at h; simp at h
+        | .panic k => rw [hj] at h; simp at h
+  · simp only [Res.pure_eq_ok, Res.ok.injEq] at h; rw [← h]; exact hc
+
 end Gp.Ip6
